@@ -250,6 +250,17 @@ def run_unit(unit, repo, tier="quick", seed=0, do_vacuity=True):
             if not all(fb[k].get("success", True) for k in hit):
                 r.status = "undecided"
                 r.reason = "verus reported function %s unsuccessful without a diagnostic" % f["fn"]
+    # thorough tier: the proof must also go through with two other solver seeds (stability)
+    if tier == "thorough" and r.status == "ok":
+        r.seeds_checked = [seed]
+        for extra_seed in (seed + 11, seed + 23):
+            c3, o3, d3, e3, _ = _run_verus(meta["file"], rlimit=rlimit, seed=extra_seed)
+            s3, r3, x3 = _classify(d3) if o3 is not None else ([], [], [1])
+            if o3 is None or s3 or r3 or x3:
+                r.status = "undecided"
+                r.reason = "proof unstable under solver seed %d" % extra_seed
+                break
+            r.seeds_checked.append(extra_seed)
     if do_vacuity and r.status == "ok":
         r.vacuity = run_vacuity(g, meta)
         if r.vacuity.get("error"):
